@@ -450,3 +450,130 @@ Proof. intros ns args kw _. split; [apply (rpc_values_bind ns args kw 0) | refle
 Lemma rpc_reject_refuted_l : exists ns args kw,
   must_reject_flat ns args kw = true /\ fst (rpc_outcome ns args kw) = CSent.
 Proof. exists [1], [Some 1; Some 2], [(7, Some 3)]. split; reflexivity. Qed.
+
+(* ------------------------------------------------------------------ *)
+(* only `value is not None` matters                                    *)
+(* ------------------------------------------------------------------ *)
+
+(* two calls supply "the same arguments up to their values": the same number of
+   positional values and the same keywords in the same order, each defined
+   (not None) in one call exactly when it is in the other *)
+Definition same_definedness (args args' : list value) (kw kw' : list (nat * value)) : Prop :=
+  map is_some args = map is_some args' /\
+  map (fun k : nat * value => (fst k, is_some (snd k))) kw =
+  map (fun k : nat * value => (fst k, is_some (snd k))) kw'.
+
+Definition normv (v : value) : value := if is_some v then Some 0 else None.
+Definition normk (k : nat * value) : nat * value := (fst k, normv (snd k)).
+
+Lemma is_some_normv v : is_some (normv v) = is_some v.
+Proof. destruct v; reflexivity. Qed.
+
+Lemma kw_get_norm : forall n kw, kw_get n (map normk kw) = option_map normv (kw_get n kw).
+Proof.
+  intros n kw. induction kw as [|[k v] kw IH]; simpl; [reflexivity|].
+  destruct (Nat.eqb k n); [reflexivity | exact IH].
+Qed.
+
+Lemma kw_del_norm : forall n kw, kw_del n (map normk kw) = map normk (kw_del n kw).
+Proof.
+  intros n kw. induction kw as [|[k v] kw IH]; simpl; [reflexivity|].
+  destruct (Nat.eqb k n); [reflexivity|]. simpl. rewrite IH. reflexivity.
+Qed.
+
+Definition norm_state (s : pstate) : pstate :=
+  mkS (map normv (s_args s)) (map normk (s_kw s)) (s_pwa s) (s_st s) [].
+
+(* the part of the parser state the verdict depends on *)
+Definition same_core (s s' : pstate) : Prop :=
+  s_args s' = map normv (s_args s) /\ s_kw s' = map normk (s_kw s) /\
+  s_pwa s' = s_pwa s /\ s_st s' = s_st s.
+
+Lemma process_parameter_norm : forall extra p s s', same_core s s' ->
+  match process_parameter extra s p, process_parameter extra s' p with
+  | inl t, inl t' => same_core t t'
+  | inr _, inr _ => True
+  | _, _ => False
+  end.
+Proof.
+  intros extra p s s' [Ha [Hk [Hp Hs]]].
+  unfold process_parameter, get_param_value. rewrite Ha, Hk, Hp, Hs.
+  destruct (s_args s) as [|v a]; simpl.
+  - rewrite kw_get_norm. destruct (kw_get (pname p) (s_kw s)) as [v|]; simpl.
+    + rewrite is_some_normv.
+      destruct (step extra (s_st s) (mkL (popt p) (is_some v) (panc p))); [|exact I].
+      repeat split; simpl; auto. apply kw_del_norm.
+    + destruct (step extra (s_st s) (mkL (popt p) false (panc p))); [|exact I].
+      repeat split; reflexivity.
+  - rewrite is_some_normv.
+    destruct (step extra (s_st s) (mkL (popt p) (is_some v) (panc p))); [|exact I].
+    repeat split; reflexivity.
+Qed.
+
+Lemma process_parameters_norm : forall extra ps s s', same_core s s' ->
+  match process_parameters extra s ps, process_parameters extra s' ps with
+  | inl t, inl t' => same_core t t'
+  | inr _, inr _ => True
+  | _, _ => False
+  end.
+Proof.
+  intros extra ps. induction ps as [|p ps IH]; intros s s' H; simpl; [exact H|].
+  pose proof (process_parameter_norm extra p s s' H) as P.
+  destruct (process_parameter extra s p) as [t|], (process_parameter extra s' p) as [t'|];
+    try contradiction; [apply IH; exact P | exact I].
+Qed.
+
+Lemma parse_args_norm : forall extra ps args kw,
+  fst (parse_args extra ps args kw) = fst (parse_args extra ps (map normv args) (map normk kw)).
+Proof.
+  intros extra ps args kw. unfold parse_args. rewrite !map_length.
+  pose proof (process_parameters_norm extra ps (mkS args kw [] (sentinel, []) [])
+                (mkS (map normv args) (map normk kw) [] (sentinel, []) [])) as P.
+  specialize (P (conj eq_refl (conj eq_refl (conj eq_refl eq_refl)))).
+  destruct (process_parameters extra (mkS args kw [] (sentinel, []) []) ps) as [t|],
+           (process_parameters extra (mkS (map normv args) (map normk kw) [] (sentinel, []) []) ps) as [t'|];
+    try contradiction; [|reflexivity].
+  destruct P as [Ha [Hk [Hp Hs]]]. rewrite Hs.
+  destruct (collapse extra (fst (s_st t)) (snd (s_st t))) as [f'|]; [|reflexivity]. simpl.
+  unfold check_extra. rewrite Ha, Hk, Hp. destruct extra; [|reflexivity].
+  destruct (s_kw t) as [|[n v] r]; simpl; [|reflexivity].
+  destruct (s_args t); reflexivity.
+Qed.
+
+Lemma same_definedness_norm : forall args args' kw kw', same_definedness args args' kw kw' ->
+  map normv args = map normv args' /\ map normk kw = map normk kw'.
+Proof.
+  intros args args' kw kw' [Ha Hk]. split.
+  - assert (E : forall l, map normv l = map (fun b : bool => if b then Some 0 else None) (map is_some l))
+      by (intro l; rewrite map_map; reflexivity).
+    rewrite (E args), (E args'), Ha. reflexivity.
+  - assert (E : forall l, map normk l =
+        map (fun k : nat * bool => (fst k, if snd k then Some 0 else None))
+            (map (fun k : nat * value => (fst k, is_some (snd k))) l))
+      by (intro l; rewrite map_map; reflexivity).
+    rewrite (E kw), (E kw'), Hk. reflexivity.
+Qed.
+
+Lemma reject_depends_on_definedness_only_l : forall extra ps args kw args' kw',
+  same_definedness args args' kw kw' ->
+  fst (parse_args extra ps args kw) = fst (parse_args extra ps args' kw').
+Proof.
+  intros extra ps args kw args' kw' H.
+  destruct (same_definedness_norm _ _ _ _ H) as [Ea Ek].
+  rewrite (parse_args_norm extra ps args kw), (parse_args_norm extra ps args' kw'), Ea, Ek.
+  reflexivity.
+Qed.
+
+(* the same holds of the specification: the four reasons for rejecting a call
+   do not look at the values either *)
+Lemma must_reject_definedness_l : forall t args kw args' kw',
+  wf t = true -> kw_distinct kw = true -> kw_distinct kw' = true ->
+  same_definedness args args' kw kw' ->
+  must_reject t args kw = must_reject t args' kw'.
+Proof.
+  intros t args kw args' kw' W K K' H.
+  pose proof (reject_iff_l t args kw W K) as A.
+  pose proof (reject_iff_l t args' kw' W K') as B.
+  rewrite (reject_depends_on_definedness_only_l true (flatten [] t) args kw args' kw' H) in A.
+  rewrite A in B. destruct (must_reject t args kw), (must_reject t args' kw'); simpl in B; congruence.
+Qed.
